@@ -10,8 +10,8 @@
 From Coq Require Import List Bool NArith PeanoNat.
 Import ListNotations.
 Require Import PV.Binder.Kind PV.Gen.Kinds PV.Binder.Sig PV.Binder.Bind PV.Binder.PyBind.
-Require Import PV.Proofs.BinderConcrete PV.Proofs.BinderValid PV.Proofs.BinderStar PV.Proofs.BinderMain PV.Proofs.BinderDef PV.Proofs.BinderGen PV.Proofs.BinderPositions.
-Require Import PV.Gen.BinderShape.
+Require Import PV.Proofs.BinderConcrete PV.Proofs.BinderValid PV.Proofs.BinderStar PV.Proofs.BinderMain PV.Proofs.BinderDef PV.Proofs.BinderGen PV.Proofs.BinderPositions PV.Proofs.BinderRaw.
+Require Import PV.Binder.BindCore PV.Gen.BinderShape.
 Open Scope N_scope.
 
 (* 1. Concrete call shapes: for EVERY valid signature (any number of parameters,
@@ -106,17 +106,30 @@ Theorem C05_valid_sig_matches_def : forall s, valid_sig s = def_header_ok s.
 Proof. exact valid_sig_matches_def. Qed.
 Print Assumptions C05_valid_sig_matches_def.
 
-(* 7. Tie to the current source: the four rejecting checks after the loop of
-      Signature.bind_arguments, as translated from signature.py on this run
-      (Gen/BinderShape.v, gen_finish), are the ones of the model; all theorems above are
-      therefore about the loop model followed by the GENERATED final checks. *)
-Theorem C05_bind_uses_generated_finish : forall s a,
-  bind s a = match bind_params a init_state s with
-             | None => None
-             | Some st => if gen_finish a st then Some (rev (bound st)) else None
-             end.
-Proof. exact bind_uses_generated_finish. Qed.
-Print Assumptions C05_bind_uses_generated_finish.
+(* 7. Tie to the current source.  harness/translate/binder.py regenerates from
+      signature.py, on every run, (a) the five per-kind arms of the loop of
+      Signature.bind_arguments by symbolic execution of their statements (gen_step),
+      after checking the initial values of the tracked variables, and (b) the four
+      rejecting checks after the loop (gen_finish).  The hand model is PROVED equal to
+      them, so all theorems above are about what the source says now, and a
+      behaviour-preserving refactor of bind_arguments re-proves instead of alarming.
+      (What *args / **kwargs collect is value construction: correspondence-checked.) *)
+Theorem C05_gen_step_is_model : forall a st p, gen_step a (core st) p = step_core a st p.
+Proof. exact gen_step_is_model. Qed.
+Print Assumptions C05_gen_step_is_model.
+
+Theorem C05_gen_finish_is_model : forall a st, gen_finish a (core st) = finish_with eka a st.
+Proof. exact gen_finish_is_model. Qed.
+Print Assumptions C05_gen_finish_is_model.
+
+(* the binder's verdict is computed entirely by generated code *)
+Theorem C05_accepts_is_generated : forall s a,
+  accepts s a = match gen_loop a (mkG 0 [] false false false) s with
+                | Some (g, _) => gen_finish a g
+                | None => false
+                end.
+Proof. exact accepts_is_generated. Qed.
+Print Assumptions C05_accepts_is_generated.
 
 (* 8. Positions: for a concrete call that binds, the entry the binder records for EVERY
       parameter agrees with where CPython takes that parameter's value from (`agrees`):
@@ -141,3 +154,45 @@ Example C05_positions_example :
      = Some [(1, SPos 0); (2, SPos 1); (3, SPos 2); (4, SVarPos 3 1); (5, SKw 5); (6, SVarKw [7])].
 Proof. exact positions_example. Qed.
 Print Assumptions C05_positions_example.
+
+(* 9. The star-argument half at the level of the RAW call  f(p.., *(..), *xs, .., k=..,
+      **{..}, **kw, ..)  (positional section `ps`, keyword section `ks`, as ast.Call keeps
+      them).  `raw_expands ne l npos kws`: replacing every *xs by some positionals (at
+      least one when ne) and every **kw by some keywords (non-empty when ne), in place,
+      yields npos positionals and the keywords kws in call order. *)
+
+(* CPython's binder does not depend on the order of the keywords *)
+Theorem C05_py_bind_perm : forall s n l l', valid_sig s = true -> Permutation.Permutation l l' ->
+  py_bind s n l = py_bind s n l'.
+Proof. exact py_bind_perm. Qed.
+Print Assumptions C05_py_bind_perm.
+
+(* what preprocess_args builds from a raw call (None = a keyword is given twice) *)
+Theorem C05_preprocess_canonical : forall ps ks, canonical ps ks ->
+  match preprocess (ps ++ ks) with
+  | Some a => a = mkActuals (repeat true (cnt_before ps)) (has_star ps) (map mkkw (flatk ks)) (has_ku ks) (has_ku ks)
+  | None => names_nodup (flatk ks) = false
+  end.
+Proof. exact preprocess_canonical. Qed.
+Print Assumptions C05_preprocess_canonical.
+
+(* an accepted raw call has an expansion that CPython binds — outside the guard
+   positional_after_star (known finding C05-positional-after-star-args, refuted in 4') *)
+Theorem C05_raw_accept_sound : forall s ps ks,
+  valid_sig s = true -> canonical ps ks -> positional_after_star (ps ++ ks) = false ->
+  call_ok s (ps ++ ks) = true ->
+  exists npos kws, raw_expands false (ps ++ ks) npos kws /\ py_bind s npos kws = true.
+Proof. exact raw_accept_sound. Qed.
+Print Assumptions C05_raw_accept_sound.
+
+(* a rejected raw call has no binding expansion that takes at least one element from every
+   star-argument (several *xs / **kw, interleaved with explicit arguments, positionals after
+   *xs included) — outside the guard kw_after_star_args (known finding
+   C05-keyword-after-star-args) *)
+Theorem C05_raw_reject_complete_partial : forall s ps ks,
+  valid_sig s = true -> canonical ps ks ->
+  (forall a, preprocess (ps ++ ks) = Some a -> kw_after_star_args s a = false) ->
+  call_ok s (ps ++ ks) = false ->
+  forall npos kws, raw_expands true (ps ++ ks) npos kws -> py_bind s npos kws = false.
+Proof. exact raw_reject_complete_partial. Qed.
+Print Assumptions C05_raw_reject_complete_partial.
